@@ -241,6 +241,43 @@ static void collisions_workload(Harness& H, bool thorough)
          for (auto it = chain.rbegin(); it != chain.rend(); ++it) H.intern(*it, "equal-hash");     // find each again in a long bucket
       }
    }
+   // equal-hash words of DIFFERENT lengths, each a proper prefix of the next: w, w+x1, w+x1+x2, ... (the block x that
+   // keeps the hash is obtained by inverting the per-block step from the two running states); interned longest-first,
+   // shortest-first and shuffled, so that a bucket comparison that trusts a prefix (or a length) is exposed
+   {
+      constexpr std::uint64_t SEED = 0xc70f6907UL;
+      auto fold = [](std::uint64_t h, const std::string& bytes) {
+         for (std::size_t i = 0; i + 8 <= bytes.size(); i += 8) { std::uint64_t k; std::memcpy(&k, bytes.data() + i, 8); h = (h ^ f(k)) * MUL; }
+         return h;
+      };
+      static const std::uint64_t IM = inv_mul();
+      long long nested_ok = 0, nested_bad = 0;
+      for (int rep = 0; rep < (thorough ? 40 : 12); ++rep) {
+         std::string w = H.random_bytes(8 * (1 + H.rng.below(4)));
+         std::vector<std::string> chain { w };
+         const int depth = 2 + int(H.rng.below(4));
+         for (int d = 0; d < depth; ++d) {
+            const std::string& cur = chain.back();
+            const std::uint64_t hs = fold(SEED ^ (std::uint64_t(cur.size()) * MUL), cur);
+            const std::uint64_t hl = fold(SEED ^ (std::uint64_t(cur.size() + 8) * MUL), cur);
+            const std::uint64_t x = finv(hl ^ (hs * IM));
+            std::string nxt = cur; nxt.append(reinterpret_cast<const char*>(&x), 8);
+            chain.push_back(nxt);
+         }
+         std::hash<util::word_view> hs;
+         bool all = true;
+         for (auto& c : chain) if (hs(widen(c)) != hs(widen(chain[0]))) all = false;
+         if (!all) { ++nested_bad; continue; }
+         ++nested_ok;
+         std::vector<std::string> order = chain;
+         if (rep % 3 == 0) std::reverse(order.begin(), order.end());
+         else if (rep % 3 == 2) for (std::size_t i = order.size(); i > 1; --i) std::swap(order[i - 1], order[H.rng.below(i)]);
+         for (auto& c : order) H.intern(c, "equal-hash-prefix");
+         for (auto& c : chain) H.intern(c, "equal-hash-prefix");
+      }
+      ctx().count("equal_hash_prefix_chains_verified", nested_ok);
+      if (nested_bad) ctx().inconclusive("equal-hash prefix generator does not match this platform's std::hash (" + std::to_string(nested_bad) + " chains)");
+   }
    ctx().count("equal_hash_chains_verified", verified);
    if (failed) ctx().inconclusive("equal-hash generator does not match this platform's std::hash (" + std::to_string(failed) + " chains)");
    // read the real bucket chain lengths through the hook
@@ -303,7 +340,7 @@ static void body(Ctx& C)
           "all earlier Strings are re-read (address, length, bytes) and storage intervals [header,end) are checked pairwise disjoint");
    C.assume("storage interval of a dynamic word = 8-byte length header immediately before characters() (pinned layout), used only for the overlap check");
    for (auto k : { "pool_rollovers", "oversize_own_pool", "oversize_fitted_current_pool", "boundary_requests_rolled_over", "boundary_requests_fitted",
-                   "equal_hash_chains_verified", "re_interned", "rechecks", "interval_checks", "reserved_words_checked", "interned:reserved-near-miss", "first_pool_filled_exactly" }) C.need(k);
+                   "equal_hash_chains_verified", "equal_hash_prefix_chains_verified", "re_interned", "rechecks", "interval_checks", "reserved_words_checked", "interned:reserved-near-miss", "first_pool_filled_exactly" }) C.need(k);
    {  // a completely empty first pool: words that fill it exactly, or miss by one byte
       for (long long n : { (1LL << 20) - 8, (1LL << 20) - 7, (1LL << 20) - 24, (1LL << 20) - 9 }) {
          Harness F(C.seed + 17 + std::uint64_t(n));
